@@ -11,6 +11,7 @@ from harness.props import version_common as vc
 ID = "C03"
 CHECK_MODULE = "Version.CompareCheck"
 PROPS_FILE = "Props/C03.v"
+TIE_FILE = "Props/C03Tie.v"
 ANCHORS = [(vc.SRC, vc.ANCHOR_NAMES_COMPARE + ["re_valid_version", "_set_full_version"])]
 BUDGET = {"quick": 3000, "thorough": 45000}
 SHARD = 400
@@ -414,3 +415,39 @@ def spec_selftest(items, scratch, tier):
     if errs:
         dis.append({"problem": "spec shard failed to evaluate", "detail": errs[:1]})
     return {"compared": len(cases), "oracle": "/usr/bin/dpkg --compare-versions", "disagreements": dis}
+
+
+# ---------------------------------------------------------------------------------------------------
+# Control flow regenerated from the source on every run (harness/py2coq.py): coq/Gen/TrVersionCmp.v.
+# coq/Version/Tie.v proves the regenerated functions equal to the model functions on all inputs.
+from harness import extract, py2coq as _P   # noqa: E402
+
+TR_MODULE = _P.Module(
+    "TrVersionCmp", vc.SRC,
+    funs=[
+        _P.Fun("tr_order", "NativeVersion._order", [("x", "char")], "Z", skip_first=True),
+        _P.Fun("tr_version_cmp_string", "NativeVersion._version_cmp_string", [("va", "str"), ("vb", "str")], "Z",
+               locals={"la": ("list", "Z"), "lb": ("list", "Z"), "a": "Z", "b": "Z"},
+               fuel={1: "S (length la + length lb)"}, skip_first=True),
+        _P.Fun("tr_version_cmp_part", "NativeVersion._version_cmp_part", [("va", "str"), ("vb", "str")], "Z",
+               locals={"la": ("list", "str"), "lb": ("list", "str"), "a": "str", "b": "str",
+                       "aval": "Z", "bval": "Z", "res": "Z"},
+               fuel={1: "S (length la + length lb)"}, skip_first=True),
+    ],
+    calls={
+        "cls.re_digit.match": [_P.Call("trp_re_digit_char", ["char"], "bool")],
+        "cls.re_alpha.match": [_P.Call("trp_re_alpha_char", ["char"], "bool")],
+        "int": [_P.Call("trp_int_char", ["char"], "Z", True), _P.Call("trp_int_str", ["str"], "Z", True)],
+        "cls._order": _P.Call("tr_order", ["char"], "Z", True),
+        "cls._version_cmp_string": _P.Call("tr_version_cmp_string", ["str", "str"], "Z", True),
+        "cls.re_all_digits_or_not.findall": _P.Call("trp_findall_chunks", ["str"], ("list", "str")),
+        "cls.re_digits.match": _P.Call("trp_re_digits", ["str"], "bool"),
+    },
+    imports=["Version.TrPrims"],
+    regexes=[("NativeVersion.re_all_digits_or_not", r"\d+|\D+"), ("NativeVersion.re_digits", r"\d+"),
+             ("NativeVersion.re_digit", r"\d"), ("NativeVersion.re_alpha", "[A-Za-z]")])
+
+
+@extract.register("TrVersionCmp")
+def _gen_tr(repo):
+    return _P.translate_module(repo, TR_MODULE)
